@@ -47,6 +47,11 @@ def build(ctx, variant="normal", extra_cflags=(), driver="h1_driver.c", out="h1"
     """Returns (exe path or None, log)."""
     ctx.snapshot()
     src = ctx.src
+    if not os.path.exists(os.path.join(src, "version.h")):
+        # generated header; absent when /repo has no build products (e.g. after `make clean`)
+        C.sh(["make", "-C", src, "-s", "version.h"])
+        if not os.path.exists(os.path.join(src, "version.h")):
+            C.sh(["make", "-C", src, "-s", os.path.join(src, "version.h")])
     flags, from_make = lib_flags(ctx)
     vflags = {"normal": [], "fast": ["-DDISABLE_MCOUNT_FILTER"], "single": ["-DSINGLE_THREAD"],
               "fast-single": ["-DDISABLE_MCOUNT_FILTER", "-DSINGLE_THREAD"]}[variant]
